@@ -424,6 +424,9 @@ class _Client:
         got = _generate_outcome(target if target is not None else obj, rng)
         if self.world.global_rng_used():
             self.viol("global_generator_consumed", f"{what}(rng=seeded) on {inp['text']!r} drew from the library's global generator")
+        if self.world.ambient_rng_used():
+            self.viol("global_generator_consumed", f"{what}(rng=seeded) on {inp['text']!r} drew from a process-wide generator "
+                      f"(numpy's legacy global state or Python's random module)")
         self.stats["seeded_generations_compared"] += 1
         if tuple(got[:4]) != tuple(b[:4] if b[0] == "ok" else b[:2]):
             self.viol("seeded_generation_differs",
@@ -553,6 +556,12 @@ class _Client:
             return None
         if op == "perturb_global":
             g.core._GLOBAL_RNG.random(o["n"])
+            # ... and the process-wide generators other code in the same process draws from
+            import random as _random
+
+            np.random.random(o["n"])
+            for _ in range(o["n"] % 7 + 1):
+                _random.random()
             self.mutating += 1
             return None
         if op == "system_iter":
